@@ -4,6 +4,7 @@ mod driver;
 mod gen;
 mod iofault;
 mod jsonord;
+mod lane;
 mod model;
 mod monitors;
 mod mutate;
@@ -66,6 +67,11 @@ fn main() {
 			let tier = if args[3] == "thorough" { Tier::Thorough } else { Tier::Quick };
 			let p = |i: usize| args[i].parse::<u64>().expect("number");
 			driver::worker_main(m.as_ref(), tier, p(4), p(5) as usize, p(6) as usize, p(7) as usize);
+		}
+		"lane" => {
+			// lane <name> <shard> <nshards> [c]
+			let p = |i: usize| args.get(i).and_then(|s| s.parse::<usize>().ok()).unwrap_or(0);
+			std::process::exit(lane::main(&args[2], p(3), p(4).max(1), args.get(5).map_or(false, |s| s == "c")));
 		}
 		"replay" | "replay-child" => {
 			let s = std::fs::read_to_string(&args[2]).expect("read descriptor");
